@@ -106,7 +106,7 @@ def main():
         log["checks"] = checks
     finally:
         sh(f"git -C /repo worktree remove --force {wt}")
-        sh("rm -rf /verif/violations")
+        sh("rm -rf /verif/violations-scratch")
     meta["verification"] = log
     json.dump(meta, open(os.path.join(out, "meta.json"), "w"), indent=1)
     print(json.dumps(dict(name=name, confirmed=log.get("confirmed"), checks=log.get("checks")), indent=1))
